@@ -146,7 +146,22 @@ def unit_small(a):
     return stats
 
 
+def check_raw(case, stats):
+    """any text: the whole outcome (AST or errors) equals the reference parser's"""
+    text = case["text"]
+    if gh.names_existing_path(text):
+        return
+    real, ref = gh.parse(text), ref_parse(text)
+    stats.case(text, '"""' in text or "```" in text, sample={"label": case.get("label")}, labels=["docstring" if ('"""' in text or "```" in text) else "no-docstring"])
+    if ref.accepted != (real[0] == "ok"):
+        raise Violation(case, "document is %s by the reference but the parser %s\n%s" % ("accepted" if ref.accepted else "rejected", "accepts it" if real[0] == "ok" else "rejects it: %r" % (real[1][:2],), text))
+    if ref.accepted and real[1] != ref.ast:
+        raise Violation(case, "AST differs from the reference, %s\n%s" % (diff_text(real[1], ref.ast, "parser", "reference"), text))
+
+
 def replay(case, stats):
+    if case.get("sub") == "raw":
+        return check_raw(case, stats)
     if case.get("sub") == "small":
         return check_small(case, stats)
     return check_doc(case, stats)
@@ -155,6 +170,8 @@ def replay(case, stats):
 def run(ctx):
     q = ctx.quick
     ctx.units("docstring-documents", unit_doc, [{"n": 750 if q else 7000, "seed": ctx.seed, "shard": i} for i in range(8 if q else 16)], procs=16)
+    from . import magnitude
+    magnitude.run_big(ctx, "c13", "check_raw", "raw")
     ctx.units("small-lines-exhaustive", unit_small, [{"maxlen": 5 if q else 7, "shard": i, "nshards": 16} for i in range(16)], procs=16)
     ctx.exhaustive = False
     ctx.extra["exhaustive_part"] = "every media type and every single content line of length <= %d over quote, backtick, backslash, blank, letter, hash, tab, for both delimiters at two indentations" % (5 if q else 7)
